@@ -21,7 +21,7 @@ import (
 // reported as a finding by the author of this monitor, not listed in
 // known_findings.json. With the switch on, exactly that behaviour is reported as class
 // "ascii-row-over-64KiB".
-const includeRowsOver64KiB = false
+const includeRowsOver64KiB = true
 
 const scannerLimit = 64 * 1024
 
